@@ -17,6 +17,7 @@ package datas
 import (
 	"context"
 	"fmt"
+	"sort"
 	"strconv"
 
 	flatbuffers "github.com/dolthub/flatbuffers/v23/go"
@@ -218,20 +219,19 @@ func getExistingStashList(ctx context.Context, ns tree.NodeStore, val types.Valu
 }
 
 // getStashListOrdered returns ordered stash list using given address map and number of elements in the map.
-// The ordering is back iterated on the current map, which gives the last added stash as the first element in the list.
+// The list is ordered by numeric key descending, which gives the last added stash as the first element in the list.
+// (The map itself orders its keys as strings, so "10" comes before "2" there.)
 func getStashListOrdered(ctx context.Context, am prolly.AddressMap, count int) []*stashHead {
-	var stashList = make([]*stashHead, count)
-	// fill the array backwards
-	var idx = count - 1
+	var stashList = make([]*stashHead, 0, count)
 	_ = am.IterAll(ctx, func(key string, addr hash.Hash) error {
 		j, err := strconv.Atoi(key)
 		if err != nil {
 			return err
 		}
-		stashList[idx] = &stashHead{j, addr}
-		idx--
+		stashList = append(stashList, &stashHead{j, addr})
 		return nil
 	})
+	sort.Slice(stashList, func(i, j int) bool { return stashList[i].key > stashList[j].key })
 
 	return stashList
 }
